@@ -32,15 +32,18 @@ def frames(T):
     pre = lambda kw: S('PACKAGE', 'IDENT', '";"', kw, 'IDENT', '"{"')
     fr = []
     iface_goods = {'method': S('VOID', 'IDENT', '"("', '")"', '";"'),
+                   'method_custom_type': S('IDENT', '"."', 'IDENT', 'IDENT', '"("', 'IDENT', 'IDENT', '")"', '";"'),
                    'const': S('CONST', 'PRIMITIVE', 'IDENT', '"="', 'INTEGER', '";"'),
                    'method_full': S('ANNOTATION', 'ONEWAY', 'LIST', '"<"', 'STRING', '">"', 'IDENT', '"("', 'DIRECTION', 'PRIMITIVE', '"["', '"]"', 'IDENT', '")"', '"="', 'INTEGER', '";"')}
     parc_goods = {'field': S('PRIMITIVE', 'IDENT', '";"'), 'field_value': S('STRING', 'IDENT', '"="', 'QUOTED_STRING', '";"'),
+                  'field_custom_type': S('IDENT', 'IDENT', '";"'),
                   'const': S('CONST', 'PRIMITIVE', 'IDENT', '"="', 'INTEGER', '";"')}
     enum_goods = {'element': S('IDENT'), 'element_value': S('IDENT', '"="', 'INTEGER')}
     for kind, kw, goods, term, start in (('interface', 'INTERFACE', iface_goods, '";"', 'IfaceEls'), ('parcelable', 'PARCELABLE', parc_goods, '";"', 'ParcEls'),
                                          ('enum', 'ENUM', enum_goods, '","', 'EnumElsC')):
         names = sorted(goods)
-        combos = [(a, b) for a in names for b in names][:4] if kind != 'enum' else [(a, b) for a in names for b in names]
+        # every member form appears as the sibling before and as the sibling after the window
+        combos = [(a, b) for a in names for b in names] if kind == 'enum' else [(names[i], names[(i + 1) % len(names)]) for i in range(len(names))] + [(names[0], names[0])]
         for (a, b) in combos:
             for posn in ('between', 'first', 'last'):
                 g1 = goods[a] if posn != 'first' else []
@@ -271,10 +274,14 @@ def check(run):
             pre, w0, w1, suf, ext1, ext2 = layout(T, f, k)
             toks = pre + win + [f['term']] + suf
             ov = {}
+            def name_index(lo, hi):
+                # the member name: the IDENT directly before `(`, `=`, `;`, `,` or `}` (not a type segment)
+                c = [i for i in range(lo, hi + 1) if toks[i] == T.tix['IDENT'] and (i + 1 >= len(toks) or T.terms[toks[i + 1]] in ('"("', '"="', '";"', '","', '"}"'))]
+                return c[0]
             if ext1:
-                ov[[i for i in range(ext1[0], ext1[1] + 1) if toks[i] == T.tix['IDENT']][0]] = 'g1'
+                ov[name_index(ext1[0], ext1[1])] = 'g1'
             if ext2:
-                ov[[i for i in range(ext2[0], ext2[1] + 1) if toks[i] == T.tix['IDENT']][0]] = 'g2'
+                ov[name_index(ext2[0], ext2[1])] = 'g2'
             seqs.append(toks); names.append(ov); metas.append((w0, w1, bool(ext1), bool(ext2)))
         nat = pengine.native_run(T, seqs, names)
         run.validated += len(nat)
